@@ -118,6 +118,9 @@ def run(ctx):
             (dict(hosts=["10.0.0.1"], rounds=4, triggers=["zc-same", "close"], behaviours=["ok"], damage=("iOSPairingId", "missing"), preemptive_triggers=False), 1),
             # subscribed and connected, then closed / shut down against a peer that resets, closes or ignores whatever close() still sends
             (dict(hosts=["10.0.0.1"], rounds=4, subscriptions=True, triggers=["close", "shutdown", "close+rst", "shutdown+rst", "drop+close", "zc-same"], behaviours=["ok", "ok-reset-on-unsubscribe", "ok-close-on-unsubscribe", "ok-mute-on-unsubscribe"], preemptive_triggers=False), 2),
+            # the secure session is fine but the answer to the re-subscription is not what the pairing can digest (valid JSON of another shape):
+            # attempt after attempt; whatever the owner's callback raises, the connection it was made on does not stay behind
+            (dict(hosts=["10.0.0.1"], rounds=4, subscriptions=True, triggers=["zc-same", "ensure", "close", "drop"], behaviours=["ok", "ok-bad-subscribe-reply"], preemptive_triggers=False), 2),
             # shut down (from connected / from retrying): announcements and callers keep arriving afterwards
             (dict(hosts=["10.0.0.1"], rounds=4, triggers=trig, prelude=["ok|10.0.0.1|ok", "shutdown"]), 2),
             (dict(hosts=["10.0.0.1"], rounds=4, triggers=trig, prelude=["refuse", "shutdown"]), 2),
